@@ -602,7 +602,9 @@ Definition step_remove_bases (st : state) (s : uid) (bs : list uid) : state * ou
 Definition step_set_params (st : state) (s : uid) (b : bool) : state * out :=
   if negb (is_kind st KSpace s) then (st, ORejected)
   else
-    let st1 := if c_params (get_cont st s) then discard_items st (items_of st s) else st in
+    (* [set_formula] / [del_formula]: the space's own ItemSpaces go, and (since /repo 302c314, D38) every
+       ItemSpace that holds a dynamic copy of the space: the copies hold the old parameter formula *)
+    let st1 := discard_items st ((if c_params (get_cont st s) then items_of st s else []) ++ dyn_roots st s) in
     (upd_cont st1 s (with_params b), ODone).
 
 Definition eval_fuel (st : state) : nat := S (List.length (st_ftab st)).
